@@ -23,7 +23,7 @@ def run(tier, repo=None, procs=16):
         size = max(50, min(2000, len(lines) // (procs * 4) + 1))
         jobs = [(lines[i:i + size], i) for i in range(0, len(lines), size)]
         with core.pool(render_replay.worker_init, (repo,), procs) as p:
-            parts = p.map(render_replay.replay_chunk, jobs)
+            parts = core.pmap(p, render_replay.replay_chunk, jobs)
         tot = {"n": 0, "vectors": 0, "attention": [], "dropped": 0, "reprs": 0}
         for r in parts:
             for k in ("n", "vectors", "dropped", "reprs"):
@@ -33,7 +33,7 @@ def run(tier, repo=None, procs=16):
         outcomes.append(tot)
         sub = [j for j in jobs][core.seed() % 4::4]
         with core.pool(render_replay.worker_init, (repo, True), procs) as p:
-            parts = p.map(render_replay.replay_chunk, sub)
+            parts = core.pmap(p, render_replay.replay_chunk, sub)
         tot2 = {"n": 0, "vectors": 0, "attention": [], "dropped": 0, "reprs": 0}
         for r in parts:
             for k in ("n", "vectors", "dropped", "reprs"):
@@ -93,5 +93,5 @@ def run_adversarial(tier, repo=None, procs=16):
     size = max(50, min(1000, len(lines) // (procs * 4) + 1))
     jobs = [(lines[i:i + size], i, ADV) for i in range(0, len(lines), size)]
     with core.pool(render_replay.worker_init, (repo,), procs) as p:
-        parts = p.map(render_replay.replay_chunk_adv, jobs)
+        parts = core.pmap(p, render_replay.replay_chunk_adv, jobs)
     return {"n": sum(r["n"] for r in parts), "attention": [a for r in parts for a in r["attention"]], "tlc": stats, "config": c, "vectors": len(lines)}
